@@ -57,6 +57,14 @@ def translate():
             fails.append("editor.rs: literal %s is gone" % lit)
     if not re.search(r'b"x-real-ip" \| b"x-forwarded-for" \| b"forwarded" \| b"x-request-id"', pk):
         fails.append("pkawa.rs: handle_trailer no longer elides exactly x-real-ip|x-forwarded-for|forwarded|x-request-id")
+    st = open(os.path.join(vlib.REPO, "command/src/state.rs")).read()
+    mv = re.search(r"pub fn validate_sozu_id_header.*?\n}\n", st, re.S)
+    reserved = re.findall(r'^\s+"([a-z0-9-]+)",$', mv.group(0), re.M) if mv else []
+    model_reserved = re.findall(r'B "([a-z0-9-]+)"', re.search(r"Definition reserved_id_names.*?\]\.", open(os.path.join(vlib.COQ, "C13/Model.v")).read(), re.S).group(0))
+    if reserved != model_reserved:
+        fails.append("state.rs: validate_sozu_id_header RESERVED list %r differs from the model's reserved_id_names %r" % (reserved, model_reserved))
+    if mv and "RESERVED.iter().any(|name| value.eq_ignore_ascii_case(name))" not in mv.group(0):
+        fails.append("state.rs: validate_sozu_id_header no longer rejects the reserved names case-insensitively")
     h1 = open(os.path.join(vlib.REPO, "lib/src/protocol/mux/h1.rs")).read()
     h2 = open(os.path.join(vlib.REPO, "lib/src/protocol/mux/h2.rs")).read()
     mt = re.search(r"pub\(super\) fn elide_proxy_owned_trailers.*?\n}\n", pk, re.S)
@@ -383,8 +391,9 @@ LEVEL_NOTE = ("Trusted: Coq kernel; extraction and ocaml/driver.ml for the corre
               "loona-hpack and Display of IpAddr are oracles (only their view/alphabet is assumed). Per-frontend RESPONSE "
               "edits (HSTS) and per-frontend REQUEST policy (rewrite host/path, header inject/delete: router.rs "
               "apply_request_rewrites_and_headers) are modelled and tied through hooks. The theorems about the correlation "
-              "header assume it is not named like a reserved forwarding field (validate_sozu_id_header only checks the token "
-              "grammar; kept as hypothesis id_ok, colliding names are generated and the model mirrors them). Black-box tiers: "
+              "header assume its name passes validate_sozu_id_header, which (fix in /repo) rejects the names the proxy owns "
+              "or interprets; the reserved list is compared with the source on every run. The validator is called on listener "
+              "updates only: AddHttpListener / AddHttpsListener do not call it. Black-box tiers: "
               "HTTP/1 and HTTP/2 (TLS) frontends of a real worker, HTTP/1.1 and h2c recording backends.")
 TECHNIQUE = "Rocq/Coq proof over an executable Gallina model + differential correspondence (extracted OCaml vs real crate)"
 CLAIMED = True
